@@ -74,7 +74,7 @@ impl Monitor for Wrapped {
         static RULE: std::sync::OnceLock<String> = std::sync::OnceLock::new();
         RULE.get_or_init(|| {
             format!(
-                "{}; in addition, in every monitor: stream api-soup = sequences of 3-7 calls of different kinds over a pool of related inputs in one refilled buffer, each call compared with the same call under another history (a second thread, reverse order, unrelated calls in between); stream api-contexts = the whole-API digest of a fixed input list computed as the first calls of a fresh thread, once more on that thread, from a thread-local destructor at thread exit and on another thread; the cold-start probe (classes cold-start|...) = the first calls of the process, and of 96 (thorough: 480) freshly started child processes, made by twelve threads released together (every third child: one thread), compared with the same calls made later; differences are reported only for the operations the property speaks about",
+                "{}; in addition, in every monitor: stream api-soup = sequences of 3-7 calls of different kinds over a pool of related inputs in one refilled buffer, each call compared with the same call under another history (a second thread, reverse order, unrelated calls in between); stream api-contexts = the whole-API digest of a fixed input list computed as the first calls of a fresh thread, once more on that thread, from a thread-local destructor at thread exit and on another thread; the cold-start probe (classes cold-start|...) = the first calls of the process, and of 192 (thorough: 480) freshly started child processes, made by twelve threads released together (every third child: one thread), compared with the same calls made later; differences are reported only for the operations the property speaks about",
                 self.0.rule()
             )
         })
